@@ -32,6 +32,52 @@ def scan_as_nobody(root):
     return json.loads(p.stdout.decode().split("\n")[0])
 
 
+def as_nobody(root, req):
+    """one harness request in a process running as uid/gid 65534"""
+    exe = os.path.join(C.BUILD, "cpfh")
+    tmpbin = os.path.join(root, ".cpfh")
+    shutil.copy(exe, tmpbin)
+    os.chmod(tmpbin, 0o755)
+    try:
+        p = subprocess.run(["setpriv", "--reuid=65534", "--regid=65534", "--clear-groups", tmpbin], input=(json.dumps(req) + "\n").encode(),
+                           stdout=subprocess.PIPE, stderr=subprocess.PIPE, timeout=180, env=dict(os.environ, HOME=root, GOMEMLIMIT="2GiB"))
+    finally:
+        os.remove(tmpbin)
+    if not p.stdout.strip():
+        return dict(outcome="died", rc=p.returncode, err=p.stderr.decode("utf-8", "replace")[-400:])
+    return json.loads(p.stdout.decode().split("\n")[0])
+
+
+def tree_fields(path, name, unprivileged, parent_searchable=True):
+    """the directory tree as the Lean walk model takes it (preorder). For an unprivileged reader an entry cannot be
+    inspected when its parent lacks the search bit, and a directory cannot be listed when it lacks the read bit."""
+    st = os.lstat(path)
+    le = "1" if (unprivileged and not parent_searchable) else "0"
+    if not stat.S_ISDIR(st.st_mode):
+        return ["F", name, le]
+    mode = stat.S_IMODE(st.st_mode)
+    listable = (mode & 0o004) != 0 or not unprivileged
+    searchable = (mode & 0o001) != 0 or not unprivileged
+    names = sorted(os.listdir(path))
+    out = ["D", name, le, "0" if listable else "1", str(len(names) if listable else 0)]
+    if listable:
+        for n in names:
+            out += tree_fields(os.path.join(path, n), n, unprivileged, searchable)
+    return out
+
+
+def discovery_correspondence(run, h, d, root, proj, stats, unprivileged, mism):
+    """getFiles on the real directory vs the Lean walk model on the same tree"""
+    r = as_nobody(root, dict(op="files", dir=proj)) if unprivileged else h.call(op="files", dir=proj)
+    m = d.call("walk-model", proj, *tree_fields(proj, os.path.basename(proj), unprivileged))
+    stats["discovery_cases" + ("_unprivileged" if unprivileged else "")] += 1
+    run.count(("discovery", unprivileged, len(m)))
+    real_files = r.get("files") or []
+    if (r.get("outcome") == "ok") != (m[0] == "ok") or (r.get("outcome") == "ok" and real_files != m[1:]):
+        mism.append(dict(unprivileged=unprivileged, real=dict(outcome=r.get("outcome"), files=[os.path.relpath(x, proj) for x in real_files][:40]),
+                         model=dict(outcome=m[0], files=[os.path.relpath(x, proj) for x in m[1:]][:40])))
+
+
 def restricted(resp, fpath):
     nodes = [n for n in resp["nodes"] if n["file"] == fpath]
     ids = {n["id"] for n in nodes}
@@ -41,6 +87,9 @@ def restricted(resp, fpath):
 
 def run(run):
     global NUM_WORKERS
+    C.build_driver()
+    d = C.Driver()
+    dmism = []
     try:
         NUM_WORKERS = max(1, int(json.load(open(os.path.join(C.LEAN, "Cpf", "Generated", "tables.json"))).get("poolNumWorkers", "5")))
     except Exception:
@@ -107,6 +156,7 @@ def run(run):
                         if r.get("outcome") in ("died", "hang"):
                             h = C.Harness()
                         continue
+                    discovery_correspondence(run, h, d, root, proj, stats, False, dmism)
                     got = restricted(r, fpath)
                     if got != ref:
                         miss = set(ref[0]) - set(got[0])
@@ -125,10 +175,16 @@ def run(run):
                              [write("zy/Locked%02d.java" % i, ftext) for i in range(NUM_WORKERS + 1)]
                     for lp in locked:
                         os.chmod(lp, 0o000)
+                    # a directory that can be listed but not searched: its entries cannot be inspected (lstat fails)
+                    write("src/noexec/Hidden.java", "class Hidden { }")
+                    write("src/noexec/sub/Deeper.java", "class Deeper { }")
+                    os.chmod(os.path.join(proj, "src", "noexec"), 0o444)
                     os.chmod(os.path.join(proj, "src", "locked"), 0o000)
                     for dp, dn, fn in os.walk(proj):
                         pass
                     try:
+                        os.chmod(os.path.join(proj, "src", "locked"), 0o000)
+                        discovery_correspondence(run, h, d, root, proj, stats, True, dmism)
                         r = scan_as_nobody(root)
                         run.count(("faults", case))
                         stats["fault_scans"] += 1
@@ -144,6 +200,7 @@ def run(run):
                                                                     "a1/Locked00..%02d.java (mode 000)" % (2 * NUM_WORKERS + 2), "zy/Locked00..%02d.java (mode 000)" % NUM_WORKERS]))
                     finally:
                         os.chmod(os.path.join(proj, "src", "locked"), 0o755)
+                        os.chmod(os.path.join(proj, "src", "noexec"), 0o755)
                         os.chmod(u2, 0o644)
                         for lp in locked:
                             os.chmod(lp, 0o644)
@@ -153,5 +210,8 @@ def run(run):
                 shutil.rmtree(root, ignore_errors=True)
     finally:
         h.close()
+        d.close()
+    if dmism:
+        run.broken_obligation("correspondence:discovery", "getFiles and the Lean walk model disagree on %d directory trees, e.g. %s" % (len(dmism), json.dumps(dmism[:2])[:1500]))
     run.extra["histogram"] = dict(stats)
     run.extra["permission_faults"] = "real (setpriv to uid 65534)" if have_setpriv else "setpriv not available: permission faults not exercised"
